@@ -622,7 +622,7 @@ class Stats(Family):
     rule = ('trees with 0-3 changes x 0-3 files whose diffs are assembled from generated hunk ASTs with known counts '
             '(garbage lines between hunks, unix/dos, declared/undeclared line endings, 8 diff encodings incl. UTF-16/32, '
             'binary/empty/absent/unparsable diffs, pre-existing stats dictionaries with custom keys and the keys the '
-            'specification documents); generate_stats '
+            'specification documents, line-splitter characters inside hunk lines); generate_stats '
             'once and twice; non-trivial = at least one text diff; distinct by tree')
 
     def cases(self, tier, rng, prop_id):
@@ -1017,7 +1017,8 @@ class Alias(Family):
     rule = ('random interleavings (8-20 operations) over up to 4 live trees: construct (with keyword attributes), parse '
             'with one shared reader object, add_change/add_file, typed attribute assignment with right and wrong '
             'values, in-place mutation of metadata and options dictionaries (incl. live values JSON has no notation '
-            'for: iterators, sets, views), serialise with one shared writer object, '
+            'for: iterators, sets, views; equal immutable values are ONE object), serialise with one shared writer object '
+            '(each result compared afterwards with a tree rebuilt from scratch), '
             '==/!=/repr, generate_stats; after every operation every live tree is snapshotted and compared with the '
             'value-level model; non-trivial = at least two trees alive and one mutation; distinct by operation list')
 
@@ -1235,7 +1236,8 @@ class Attrs(Family):
     rule = ('for random trees: every attribute name (own and forwarded) at every section x 26 candidate values of right '
             'and wrong type/choice (assignment either stores or raises leaving the tree unchanged); unknown constructor '
             'attributes; every single-field perturbation of a tree compared with the original by ==, != and to_bytes, '
-            'incl. pairs of near-equal texts (Unicode normal forms, case, white space, newline style); '
+            'incl. pairs of near-equal texts (Unicode normal forms, case, white space, newline style) and edits of the '
+            'public changes / files lists that keep their length; '
             'non-trivial = the tree has at least one change with a file; distinct by operation list')
 
     def cases(self, tier, rng, prop_id):
